@@ -167,9 +167,57 @@ def rule_token_clone(ctx: RuleContext, p: Program, rid: str) -> None:
                   norm(r) if r else '', f'RawTokenModel.{name} does not return the transformer image of the token', f.where)
 
 
+def rule_copy_shallow(ctx: RuleContext, p: Program, rid: str) -> None:
+    ctx.rule(rid, 'no __deepcopy__ builds its result from a shallow copy of self while the class keeps mutable per-object state: every '
+                  'attribute that __init__ sets to a fresh container (list / dict / set) must be re-assigned on the copy, otherwise copy and '
+                  'original share it (for a repeated-field wrapper: the list of update handlers, so views of one document are driven by '
+                  'edits of the other)')
+    n = 0
+    for m in p.modules.values():
+        if m.name.endswith('_test'):
+            continue
+        for c in m.classes:
+            dc = c.attrs.get('__deepcopy__')
+            if not isinstance(dc, FuncInfo):
+                continue
+            n += 1
+            site = f'{m.name.split(".", 1)[1]}:{c.name}.__deepcopy__'
+            shallow = [a for a in walk_no_nested(dc.node) if isinstance(a, ast.Assign) and isinstance(a.value, ast.Call)
+                       and (dotted(a.value.func) or '') in ('copy.copy', 'copy') and a.value.args and norm(a.value.args[0]) == dc.params[0]
+                       and isinstance(a.targets[0], ast.Name)]
+            if not shallow:
+                ctx.ok(rid, site, 'no shallow copy of self')
+                continue
+            cname = shallow[0].targets[0].id          # type: ignore[attr-defined]
+            containers: set[str] = set()
+            for k in c.mro:
+                init = k.attrs.get('__init__')
+                if not isinstance(init, FuncInfo):
+                    continue
+                for a in walk_no_nested(init.node):
+                    if isinstance(a, (ast.Assign, ast.AnnAssign)):
+                        tgt = a.targets[0] if isinstance(a, ast.Assign) else a.target
+                        v = a.value
+                        sa = self_attr(tgt)
+                        if sa and v is not None and (isinstance(v, (ast.List, ast.Dict, ast.Set, ast.ListComp, ast.DictComp, ast.SetComp)) or (
+                                isinstance(v, ast.Call) and norm(v.func).split('[')[0].split('.')[-1] in (
+                                    'list', 'dict', 'set', 'deque', 'defaultdict', 'OrderedDict'))):
+                            containers.add(sa)
+            reassigned = {t.attr for a in walk_no_nested(dc.node) if isinstance(a, ast.Assign) for t in a.targets
+                          if isinstance(t, ast.Attribute) and isinstance(t.value, ast.Name) and t.value.id == cname}
+            shared = sorted(containers - reassigned)
+            ctx.check(not shared, rid, site, f'copy.copy(self) shares {shared}',
+                      f'{c.name}.__deepcopy__ starts from copy.copy(self) and does not replace {shared}: the copy and the original keep one '
+                      f'{"list" if len(shared) == 1 else "set of containers"} between them, so registering or notifying through one acts on the other '
+                      f'(a deep copy must be fully independent)', dc.where, note='every container attribute re-assigned')
+    if n < 3:
+        raise AnalysisError(f'COPY-SHALLOW: only {n} __deepcopy__ methods found')
+
+
 def run(ctx: RuleContext, p: Program) -> None:
     tcs = build_tree_classes(p)
     ctx.try_rule(rule_copy_store, p, 'COPY-STORE')
+    ctx.try_rule(rule_copy_shallow, p, 'COPY-SHALLOW')
     ctx.try_rule(gen.rule_cover_clone, p, tcs, 'COVER-CLONE')
     ctx.require_min('COVER-CLONE', 34)
     ctx.try_rule(handmodels.rule_hand_clone, p, 'COVER-CLONE')
